@@ -37,7 +37,15 @@ MANIFEST = dict(
          "whole domain of a character -- reads minus pushbacks must amount to exactly the one separator; (g) on every text path of "
          "Recfile.write the array handed to Records::Write is contiguous by construction (copy / ascontiguousarray / a tested flag), given that "
          "Records::Write takes PyArray_DATA and consults no strides; a path that knows <array>.dtype.isnative counts as native order; tests "
-         "joined by and / or are decided operand by operand.",
+         "joined by and / or are decided operand by operand; (h) the layout of a row is decided on the trace of the whole writer (Records::WriteRows "
+         "with every helper followed -- records of a plain struct type and work tables of them are modelled -- and only the two element writers kept as "
+         "calls) on tables with fields of different shapes; the element writers are then run with the arguments their caller hands them, whatever "
+         "the parameter list is; fwrite(p, a, b) writes the a*b bytes at p and memchr has its C99 meaning, one test per byte; (i) what a true test "
+         "says about an array -- native order, contiguous rows -- is also derived from predicates of the repository: a summary 'a true result implies "
+         "...' is computed over every path of the function (recursive predicates over the fields of a dtype by induction, all(...) over every field "
+         "without a filter); (j) module-level constants bound once and named tuples made on the path are read through; whether a path opens the "
+         "file for reading is decided by evaluating the path's tests on the mode over the finite set of modes; (k) a stripper may hand its work to "
+         "another function of the repository, which is then judged the same way and reported under its own name.",
     note="Not decided: libc printf/scanf numeric round trip and libc's own spellings of NaN/inf (special values the code spells itself are decided). "
          "Assumes LP64 and that stdio calls succeed. Bounded shapes, not a proof for all sizes. The whitespace-directive hazard is a recorded known finding.",
     technique="static analysis: bounded symbolic execution of the C++ reader/writer and format-table code over the clang AST (trace comparison), "
@@ -113,7 +121,7 @@ NPY_TYPES = {n: i for i, n in enumerate(
     "NPY_LONGDOUBLE NPY_CFLOAT NPY_CDOUBLE NPY_CLONGDOUBLE NPY_OBJECT NPY_STRING NPY_UNICODE NPY_VOID NPY_DATETIME NPY_TIMEDELTA NPY_HALF".split())}
 _CASTS = ("ImplicitCastExpr", "ParenExpr", "CStyleCastExpr", "ConstantExpr", "ExprWithCleanups", "MaterializeTemporaryExpr", "CXXBindTemporaryExpr",
           "CXXStaticCastExpr", "CXXReinterpretCastExpr", "CXXConstCastExpr", "CXXFunctionalCastExpr")
-_WRITERS = ("fputc", "putc", "fputs", "fprintf", "fwrite", "fflush", "putc_unlocked", "fputc_unlocked")
+_WRITERS = ("fputc", "putc", "fputs", "fprintf", "fwrite", "fflush", "putc_unlocked", "fputc_unlocked", "fwrite_unlocked")
 
 
 class _CUnrec(Exception):
@@ -165,9 +173,51 @@ class _Arr:
         return self.special.get(i, self.default)
 
 
+class _SymTab(_Arr):
+    """a member table of texts whose length is known (what the table-building function leaves) and whose entries stay symbolic: entry i
+    reads as ("idx", ("sym", name), i), the same term an unknown table gives"""
+    def __init__(self, name, n):
+        self.tname, self.n = name, n
+
+    def get(self, i):
+        if not 0 <= i < self.n:
+            raise _CUnrec("entry %d of %s, which has %d" % (i, self.tname, self.n))
+        return ("idx", ("sym", self.tname), i)
+
+
 class _SStream:
     def __init__(self):
         self.value = ""
+
+
+class _Obj:
+    """an object of a plain record type (struct) with identity: its fields are set and read by name"""
+    def __init__(self, type_=""):
+        self.type, self.f = type_, {}
+
+    def __repr__(self):
+        return "<%s %s>" % (self.type or "struct", ", ".join("%s=%s" % (k, _show(v) if not isinstance(v, _Obj) else "...") for k, v in sorted(self.f.items())))
+
+
+def _elem_default(vec_type):
+    """a value-initialised element of std::vector<T> (None: T is not modelled)"""
+    t = vec_type.replace("const ", "").replace("std::", "").strip().rstrip("&").strip()
+    if not t.startswith("vector<") or not t.endswith(">"):
+        return None
+    el = t[len("vector<"):-1].strip()
+    if "," in el and el.split(",", 1)[1].strip().startswith("allocator"):
+        el = el.split(",", 1)[0].strip()
+    if el in SIZEOF or el in ("bool", "size_t", "npy_intp", "long long", "unsigned long long"):
+        return lambda: 0
+    if el in ("string", "basic_string<char>") or el.startswith("basic_string"):
+        return lambda: ""
+    if el.endswith("*"):
+        return lambda: 0
+    if el.startswith("vector<"):
+        return lambda: _Vec()
+    if el.replace("::", "").replace("_", "").isalnum():
+        return lambda: _Obj(el)
+    return None
 
 
 def _kids(n):
@@ -354,6 +404,8 @@ class _CX:
             return ("load", loc[1], loc[2])
         if k == "val":
             return loc[1]
+        if k == "fld":
+            return loc[1].f.get(loc[2], ("undef", loc[2]))
         raise _CUnrec("load from %r" % (loc,))
 
     def store(self, loc, v):
@@ -369,6 +421,8 @@ class _CX:
             loc[1].items[loc[2]] = v
         elif k == "ptr":
             self.events.append(("store", loc[1], v))
+        elif k == "fld":
+            loc[1].f[loc[2]] = v
         elif k == "elem" and not isinstance(loc[1], (_Vec, _Arr)):
             self.events.append(("store", ("idx", loc[1], loc[2]), v))
         else:
@@ -387,7 +441,12 @@ class _CX:
         if k == "MemberExpr":
             if not ks or cfront.strip(ks[0]).get("kind") == "CXXThisExpr":
                 return ("mem", n.get("name"))
-            return ("val", ("field", self.rv(ks[0], env), n.get("name")))
+            b = self.rv(ks[0], env)
+            if n.get("isArrow") and isinstance(b, tuple) and b[0] == "aff" and b[2] == 0 and isinstance(b[1], tuple) and b[1][0] == "addrobj":
+                b = b[1][1]
+            if isinstance(b, _Obj):
+                return ("fld", b, n.get("name"))
+            return ("val", ("field", b, n.get("name")))
         if k == "UnaryOperator" and n.get("opcode") == "*":
             return ("ptr", self.ptr(self.rv(ks[0], env)), _ct(n))
         if k == "ArraySubscriptExpr":
@@ -529,7 +588,9 @@ class _CX:
             args = [a for a in ks if a.get("kind") != "CXXDefaultArgExpr"]
             t = _qt(n)
             if not args:
-                return _SStream() if "stringstream" in t else ("" if "basic_string" in t else (_Vec() if "vector<" in t else ("obj", t)))
+                if "stringstream" in t or "basic_string" in t or "vector<" in t:
+                    return _SStream() if "stringstream" in t else ("" if "basic_string" in t else _Vec())
+                return _Obj(_ct(n)) if _ct(n).replace("::", "").replace("_", "").replace("struct ", "").isalnum() else ("obj", t)
             if _ct(n).startswith(("std::vector<", "vector<")):
                 # vector(n) / vector(n, value): a table of concrete length; vector(other): a copy of another table
                 vals = [self.rv(a, env) for a in args]
@@ -614,6 +675,13 @@ class _CX:
         vals = [self.rv(a, env) for a in args]
         if fn is not None and name not in self.opaque and cfront.body_of(fn) is not None:
             return self.run(fn, vals)
+        if name in ("memchr", "__builtin_memchr") and fn is None and len(vals) == 3 and isinstance(vals[1], int) and isinstance(vals[2], int) and 0 <= vals[2] <= 64:
+            # C99 7.21.5.1: the first of the n bytes that equals c, or a null pointer -- one test per byte, every outcome explored
+            base, off = _aff(self.ptr(vals[0]))
+            for i in range(vals[2]):
+                if self.decide(("op", "==", ("load", _mkaff(base, off + i), "char"), vals[1])):
+                    return _mkaff(base, off + i)
+            return 0
         if fn is None and name not in self.opaque and name not in _LIBC and _fp_pure(name) is None and not name.startswith(("Py", "_Py", "__builtin", "operator")):
             self.foreign.add(name)          # neither the C library nor a function of the dump at hand
         return self.external(name, vals)
@@ -622,6 +690,8 @@ class _CX:
         self.nret += 1
         r = ("ret", name, self.nret)
         self.events.append(("call", name, tuple(vals), self.mem.get("mData", ("sym", "mData")), r))
+        if name in ("fwrite", "fwrite_unlocked") and len(vals) == 4:
+            return vals[2]                  # stdio succeeds: every item is written (C99 7.19.8.2: the count is returned)
         return r
 
     def method(self, name, base, args, env, n):
@@ -642,6 +712,8 @@ class _CX:
                 o.items.append(vals[0])
                 return 0
             raise _CUnrec("vector::%s" % name)
+        if isinstance(o, _SymTab) and name == "size" and not vals:
+            return o.n
         if isinstance(o, _SStream):
             if name == "str" and not vals:
                 return o.value
@@ -652,6 +724,12 @@ class _CX:
             return len(o)
         if name == "empty" and isinstance(o, str):
             return int(o == "")
+        mk = _elem_default(_ct(base)) if name in ("resize", "assign", "clear") and loc[0] in ("var", "mem") and not isinstance(o, str) else None
+        if mk is not None and (name == "clear" or (vals and isinstance(vals[0], int) and 0 <= vals[0] <= 64)):
+            # a std::vector that is not part of the configuration (a per-call work table): it gets a concrete length here
+            n_el = 0 if name == "clear" else vals[0]
+            self.store(loc, _Vec([vals[1] if len(vals) > 1 else mk() for _ in range(n_el)]))
+            return 0
         if name in ("resize", "reserve", "assign", "clear", "append", "push_back") and loc[0] in ("var", "mem"):
             if name == "clear":
                 self.store(loc, "")
@@ -963,7 +1041,7 @@ def _fp_pure(name):
 
 
 _LIBC = {"isnan", "isinf", "isfinite", "finite", "signbit", "fabs", "fabsf", "copysign", "copysignf", "fgetc", "getc", "ungetc", "fputc", "putc", "fputs", "fprintf", "fscanf", "sscanf", "fwrite", "fread", "fflush", "feof", "ferror", "fseek", "ftell",
-         "rewind", "snprintf", "sprintf", "printf", "strlen", "memcpy", "memset", "memmove", "strcmp", "strncmp", "strncpy", "isspace", "malloc", "free"}
+         "rewind", "snprintf", "sprintf", "printf", "strlen", "memcpy", "memset", "memmove", "memchr", "strcmp", "strncmp", "strncpy", "isspace", "malloc", "free"}
 
 
 class _TU:
@@ -1060,9 +1138,14 @@ _D, _S = NPY_TYPES["NPY_DOUBLE"], NPY_TYPES["NPY_STRING"]
 _FPTR, _DATA = _mkaff(_SYM("mFptr"), 0), _mkaff(_SYM("mData"), 0)      # the open stream and the data cursor: pointers, not null
 
 
+_TABLE_LEN = {}          # {member table of formats: its length}, known once the table-building functions were evaluated
+
+
 def _mem(**kw):
     m = dict(mDebug=0, mBracketArrays=0, mReadAsWhitespace=0, mIgnoreNull=0, mPadNull=0, mNfields=3, mNrows=2, mFptr=_FPTR, mData=_DATA,
              mNel=_Arr(3), mSizes=_Arr(24), mTypeNums=_Arr(_D), mNdim=_Arr(0))
+    for name, n in _TABLE_LEN.items():
+        m[name] = _SymTab(name, n)
     m.update(kw)
     return m
 
@@ -1116,6 +1199,8 @@ def format_tables(chk, tu):
     if r is None:
         raise AnalysisError("the format tables could not be evaluated")
     plain, full, ws, prt, prt_ws = r
+    _TABLE_LEN.clear()
+    _TABLE_LEN.update({"mScanFormats": len(full), "mPrintFormats": len(prt)})          # what the constructor leaves in the members
     idx = {n: NPY_TYPES[n] for n in NEEDED}
     okt = all(len(t) > max(idx.values()) for t in (plain, full, ws, prt)) and all(isinstance(plain[i], str) for i in idx.values())
     chk.ob("R04.1", "scan-table::evaluated", okt, W, "scan table evaluated: %d entries %s" % (len(plain), {n: plain[i] for n, i in idx.items()} if okt else plain))
@@ -1468,12 +1553,23 @@ def _float_arm(buf, trs, names):
 def switch_arms(chk, tu):
     """{enumerator: {'cast': [C type read from the buffer], 'fmt_index': [enumerator of the format entry]}} from running the number writer once per type"""
     names = {i: n for n, i in NPY_TYPES.items()}
-    buf = _mkaff(_SYM("buffer"), 0)
     entry = "Records::WriteNumberAsAscii"
+    nparams = len([c for c in tu.funcs[entry].get("inner", []) if c.get("kind") == "ParmVarDecl"])
+
+    def call_of(typ):
+        """(buffer, arguments): how the writer calls the number writer for an element of this type -- taken from the caller (a table with
+        one field of one element of the type), so that a changed parameter list (a format pointer handed in ...) is followed; the
+        historical (buffer, type) when the caller cannot be followed"""
+        args = _leaf_args(tu, "WriteNumberAsAscii", typ, 1, 8)
+        if args is not None and len(args) == nparams:
+            return _DATA, args
+        b = _mkaff(_SYM("buffer"), 0)
+        return b, [b, typ]
     arms, followed = {}, []
     for name in NEEDED:
         try:
-            trs = list(c_paths(tu, entry, [buf, NPY_TYPES[name]], _mem(), max_paths=64 if NEEDED[name].startswith("f") else 8))
+            buf, args = call_of(NPY_TYPES[name])
+            trs = list(c_paths(tu, entry, args, _mem(mTypeNums=_Arr(NPY_TYPES[name]), mNel=_Arr(1), mSizes=_Arr(8)), max_paths=64 if NEEDED[name].startswith("f") else 8))
         except AnalysisError:
             raise
         except Exception as e:
@@ -1509,7 +1605,8 @@ def switch_arms(chk, tu):
         chk.analysed_unit("Records::" + f if "Records::" + f in tu.funcs else f)
 
     def bogus():
-        trs = list(c_paths(tu, entry, [buf, 99], _mem(), max_paths=8))
+        buf, args = call_of(99)
+        trs = list(c_paths(tu, entry, args, _mem(mTypeNums=_Arr(99), mNel=_Arr(1), mSizes=_Arr(8)), max_paths=8))
         return all(t.end == "throw" and not t.calls(*_WRITERS) for t in trs)
     r = _group(chk, [("R04.2", "switch::unsupported-type-raises", "a type without an arm raises instead of writing garbage")], bogus)
     if r is not None:
@@ -1570,6 +1667,26 @@ def _all(vs):
     return bool(vs) and all(vs)
 
 
+def _bytes_out(calls):
+    """the bytes a sequence of stdio calls puts on the open stream, one value per byte: fputc / putc give their argument, fwrite(p, a, b)
+    with known a and b gives the a*b bytes at p, p+1, ... as they are.  None: a call whose output is not known byte by byte (fputs and
+    %s stop at a NUL byte: they do not write a fixed width)"""
+    out = []
+    for c in calls:
+        n, a = c[1], c[2]
+        if n in ("fputc", "putc", "putc_unlocked", "fputc_unlocked") and len(a) == 2 and a[1] == _FPTR:
+            out.append(a[0])
+        elif n == "fprintf" and len(a) == 3 and a[0] == _FPTR and a[1] == "%c":
+            out.append(a[2])
+        elif n in ("fwrite", "fwrite_unlocked") and len(a) == 4 and a[3] == _FPTR and isinstance(a[1], int) and isinstance(a[2], int) and 0 <= a[1] * a[2] <= 4096 \
+                and isinstance(a[0], tuple) and a[0][0] == "aff":
+            base, off = _aff(a[0])
+            out += [("load", _mkaff(base, off + i), "char") for i in range(a[1] * a[2])]
+        else:
+            return None
+    return out
+
+
 def strings(chk, tu):
     # ---- writer: run on two shapes (12 bytes / 4 elements = 3 per element, 10 / 2 = 5) with the NUL flags off and on
     wkeys = [("R04.1", "string::written-width", "each string element is written as size/nel bytes"),
@@ -1577,6 +1694,7 @@ def strings(chk, tu):
              ("R04.1", "string::early-stop-only-with-ignorenull", "the byte loop stops early only under the opt-in ignorenull flag"),
              ("R04.1", "string::bytes-altered-only-with-padnull", "a byte is replaced only under the opt-in padnull flag")]
     data = _SYM("mData")
+    nparams = len([c for c in tu.funcs["Records::WriteStringAsAscii"].get("inner", []) if c.get("kind") == "ParmVarDecl"])
 
     def writer():
         res = {}
@@ -1584,14 +1702,20 @@ def strings(chk, tu):
             for ign in (0, 1):
                 for pad in (0, 1):
                     runs = []
-                    for tr in c_paths(tu, "Records::WriteStringAsAscii", [1], _mem(mSizes=_Arr(size), mNel=_Arr(nel), mIgnoreNull=ign, mPadNull=pad), max_paths=300):
+                    # how the writer calls the byte writer for the first element of a string field of this shape (the field number, or the
+                    # cursor and the width ...): taken from the caller; the historical (field number) when the caller cannot be followed
+                    args = _leaf_args(tu, "WriteStringAsAscii", _S, nel, size, mIgnoreNull=ign, mPadNull=pad)
+                    if args is None or len(args) != nparams:
+                        args = [1]
+                    for tr in c_paths(tu, "Records::WriteStringAsAscii", args, _mem(mSizes=_Arr(size), mNel=_Arr(nel), mTypeNums=_Arr(_S), mIgnoreNull=ign, mPadNull=pad), max_paths=300):
                         if tr.end != "return":
                             continue
                         out = tr.calls(*_WRITERS)
-                        if any(c[1] not in ("fputc", "putc") or len(c[2]) != 2 for c in out) or tr.stores() or tr.calls() != out:
-                            raise _CUnrec("the string writer does something else than fputc: %s" % sorted({c[1] for c in tr.calls()}))
-                        runs.append(([c[2][0] for c in out], tr))
-                        if not ign and len(out) != size // nel:
+                        bts = _bytes_out(out)
+                        if bts is None or tr.stores() or tr.calls() != out:
+                            raise _CUnrec("the string writer does something else than writing bytes with fputc / fwrite: %s" % sorted({c[1] for c in tr.calls()}))
+                        runs.append((bts, tr))
+                        if not ign and len(bts) != size // nel:
                             break               # one run of the wrong width decides; the other outcomes of the data tests need not be enumerated
                     res[(size // nel, ign, pad)] = runs
         return res
@@ -1702,13 +1826,155 @@ def _is_newline_out(c):
     return (n in ("fputc", "putc") and a == (10, f)) or (n == "fputs" and a == ("\n", f)) or (n == "fprintf" and a in ((f, "\n"), (f, "%c", 10), (f, "%s", "\n")))
 
 
+_LEAVES = ("WriteStringAsAscii", "WriteNumberAsAscii")          # the element writers (anchors of this check): one call writes one element
+
+
+def _shape_mem(nrows, fields, **kw):
+    """the configuration of a table with the given fields [(elements, bytes, type number)]"""
+    def arr(i):
+        return _Arr(fields[0][i], **{"i%d" % f: fld[i] for f, fld in enumerate(fields) if f})
+    return _mem(mNrows=nrows, mNfields=len(fields), mNel=arr(0), mSizes=arr(1), mTypeNums=arr(2), **kw)
+
+
+def _writer_tokens(tu, nrows, fields, **kw):
+    """the whole text writer (Records::WriteRows, every helper followed, the two element writers kept as calls) on one table shape:
+    the sequence of E (an element writer is called: kind, data cursor at the call, arguments), D (the delimiter is written) and
+    N (a newline is written), and where the data cursor ends"""
+    tr = _one(tu, "Records::WriteRows", [], _shape_mem(nrows, fields, **kw), opaque=_LEAVES)
+    if tr.end != "return" or tr.stores():
+        raise _CUnrec("WriteRows throws or stores on the test shape")
+    toks = []
+    for c in tr.calls():
+        if c[1] in _LEAVES:
+            toks.append(("E", "str" if c[1] == _LEAVES[0] else "num", _aff(c[3]), c[2]))
+        elif _is_delim_out(c):
+            toks.append(("D",))
+        elif _is_newline_out(c):
+            toks.append(("N",))
+        else:
+            raise _CUnrec("the row writer calls %s(%s), which is neither an element writer nor an output of the delimiter / the newline" % (c[1], ", ".join(_show(a) for a in c[2])))
+    return toks, _aff(tr.mem.get("mData"))
+
+
+def _leaf_args(tu, leaf, typ, nel, size, **kw):
+    """the arguments the writer hands to an element writer for the first element of a table with one field of the given shape (how the
+    function is called is taken from its caller, not from its parameter list); None when that cannot be followed"""
+    try:
+        toks, _end = _writer_tokens(tu, 1, [(nel, size, typ)], **kw)
+    except AnalysisError:
+        raise
+    except Exception:
+        return None
+    first = next((t for t in toks if t[0] == "E"), None)
+    if first is None or first[1] != ("str" if leaf == _LEAVES[0] else "num") or first[2] != (_SYM("mData"), 0):
+        return None
+    if any(isinstance(a, _Obj) for a in first[3]):
+        return None
+    return list(first[3])
+
+
+_WHOLE_SHAPES = ((2, ((3, 24, _D), (1, 8, _S), (2, 12, _S))), (3, ((4, 12, _S),)), (1, ((1, 5, _S), (1, 8, _D))), (2, ((2, 4, NPY_TYPES["NPY_SHORT"]), (1, 8, _D), (3, 24, _D))))
+
+
+def _whole_writer(tu):
+    """the seven statements about the layout of a row, decided on the trace of the whole writer: {key: (verdict, note)}"""
+    data = _SYM("mData")
+    v = {k: [] for k in ("el", "fd", "cur", "sz", "disp", "all", "nl")}
+    notes = []
+    for nrows, fields in _WHOLE_SHAPES:
+        toks, end = _writer_tokens(tu, nrows, list(fields))
+        rowsize = sum(f[1] for f in fields)
+        exp = []
+        for r in range(nrows):
+            off = r * rowsize
+            for f, (nel, size, typ) in enumerate(fields):
+                for e in range(nel):
+                    exp.append((r, f, e, off + e * (size // nel), typ, size // nel))
+                off += size
+        es = [t for t in toks if t[0] == "E"]
+        kinds = "".join(t[0] for t in toks)
+        shown = "%d row(s) of fields %s: output %s" % (nrows, ["%dx%d bytes %s" % (n, s // n, "string" if t == _S else "number") for n, s, t in fields], kinds)
+        if len(es) != len(exp):
+            v["all"].append(False)
+            for k in ("el", "fd", "cur", "sz", "disp", "nl"):
+                v[k].append(None)
+            notes.append(shown + ": %d elements written, the table has %d" % (len(es), len(exp)))
+            continue
+        gaps, cur = [], ""
+        for t in toks:
+            if t[0] == "E":
+                gaps.append(cur)
+                cur = ""
+            else:
+                cur += t[0]
+        head, gaps, tail = gaps[0], gaps[1:] + [cur], None
+        ok = {k: True for k in v}
+        ok["fd"] = head == ""
+        for i, (a, g) in enumerate(zip(exp, gaps)):
+            b = exp[i + 1] if i + 1 < len(exp) else None
+            if b is not None and b[0] == a[0] and b[1] == a[1]:
+                ok["el"] = ok["el"] and g == "D"                     # next element of the same field
+            elif b is not None and b[0] == a[0]:
+                ok["fd"] = ok["fd"] and g == "D"                     # first element of the next field
+            else:
+                ok["nl"] = ok["nl"] and g.count("N") == 1 and g.endswith("N")          # the row ends
+                ok["fd"] = ok["fd"] and "D" not in g
+        for (r, f, e, off, typ, elsize), t in zip(exp, es):
+            ptrs = [_aff(a) for a in t[3] if isinstance(a, tuple) and a[0] == "aff" and _aff(a)[0] == data]
+            ints = [a for a in t[3] if isinstance(a, int) and not isinstance(a, bool)]
+            fmts = [a[2] for a in t[3] if isinstance(a, tuple) and a[0] == "idx" and a[1] == _SYM("mPrintFormats")]
+            ok["all"] = ok["all"] and t[2] == (data, off)
+            ok["cur"] = ok["cur"] and t[2] == (data, off) and all(p == (data, off) for p in ptrs)
+            ok["sz"] = ok["sz"] and t[2][1] - (r * rowsize + sum(x[1] for x in fields[:f])) == e * elsize
+            if typ == _S:
+                d = t[1] == "str" and (all(a in (f, elsize) for a in ints) if ptrs else ints == [f])
+                d = d if d or t[1] != "str" else None               # a byte writer called in a way this rule does not know
+            else:
+                d = t[1] == "num" and typ in ints and all(x == typ for x in fmts)
+            ok["disp"] = d if ok["disp"] is True or d is False else ok["disp"]
+        ok["cur"] = ok["cur"] and end == (data, nrows * rowsize)
+        for k in v:
+            v[k].append(ok[k])
+        if not all(ok.values()):
+            notes.append(shown + ", elements at offsets %s, cursor ends at +%s" % ([t[2][1] for t in es][:12], end[1]))
+    extra = (" (%s)" % "; ".join(notes[:2])) if notes else ""
+    return {k: (_verdict(x), extra) for k, x in v.items()}
+
+
 def delimiters(chk, tu, suffix=None):
+    data, fptr = _SYM("mData"), _FPTR
+    whole = why_not = None
+    try:
+        whole = _whole_writer(tu)
+    except AnalysisError:
+        raise
+    except Exception as e:          # the interpreter gave up on the whole writer: the functions are looked at one by one below
+        why_not = "%s%s" % ("" if isinstance(e, _CUnrec) else type(e).__name__ + " ", e)
+    if whole is not None:
+        shapes = "on tables of %s" % "; ".join("%d row(s) x %s" % (n, "+".join("%dx%d" % (a, b // a) for a, b, _t in f)) for n, f in _WHOLE_SHAPES)
+        for key, k, msg in (("writer::delimiter-between-elements", "el", "the delimiter is written between the elements of a sub-array field, not before the first or after the last"),
+                            ("writer::delimiter-between-fields", "fd", "the delimiter is written between fields, not before the first or after the last"),
+                            ("writer::cursor-advances-by-element-size", "cur", "the data cursor advances by one element per element written"),
+                            ("writer::element-size", "sz", "element size is field size / number of elements"),
+                            ("writer::string-vs-number-dispatch", "disp", "string elements go to the byte writer, all others to the formatted writer of their type"),
+                            ("writer::all-rows-all-fields", "all", "every element of every field of every row is written, in order"),
+                            ("writer::newline-per-row", "nl", "one newline ends each row")):
+            chk.ob("R04.4", key, whole[k][0], W, "%s [the whole row writer, Records::WriteRows with its helpers followed, %s]%s" % (msg, shapes, whole[k][1]))
+    else:
+        _delimiters_by_function(chk, tu, why_not)
+    _delimiters_reader(chk, tu, suffix)
+
+
+def _delimiters_by_function(chk, tu, why_not=None):
+    """the layout of a row, function by function: WriteField for the elements and the delimiter behind a field, WriteRows for fields and newlines"""
     data, fptr = _SYM("mData"), _FPTR
     wkeys = [("R04.4", "writer::delimiter-between-elements", "the delimiter is written between the elements of a sub-array field, not after the last"),
              ("R04.4", "writer::delimiter-between-fields", "the delimiter is written between fields, not after the last"),
              ("R04.4", "writer::cursor-advances-by-element-size", "the data cursor advances by one element per element written"),
              ("R04.4", "writer::element-size", "element size is field size / number of elements"),
              ("R04.4", "writer::string-vs-number-dispatch", "string elements go to the byte writer, all others to the formatted writer of their type")]
+    if why_not:
+        wkeys = [(r, k, m + " [the whole row writer could not be followed: %s]" % why_not) for r, k, m in wkeys]
 
     def field():
         out = []
@@ -1759,6 +2025,8 @@ def delimiters(chk, tu, suffix=None):
         chk.ob("R04.4", "writer::string-vs-number-dispatch", _all(v_disp), W, "string elements go to the byte writer, all others to the formatted writer of their type" + extra)
     # ---- rows
     rkeys = [("R04.4", "writer::all-rows-all-fields", "every field of every row is written"), ("R04.4", "writer::newline-per-row", "one newline ends each row")]
+    if why_not:
+        rkeys = [(r, k, m + " [the whole row writer could not be followed: %s]" % why_not) for r, k, m in rkeys]
 
     def rows():
         out = []
@@ -1778,6 +2046,10 @@ def delimiters(chk, tu, suffix=None):
         shown = ["".join(t[0] + (str(t[1]) if t[0] == "F" else "") for t in toks) for nr, nf, toks in res]
         chk.ob("R04.4", "writer::all-rows-all-fields", _all(v_all), W, "every field of every row is written, in order (2 rows of 3 fields, 3 rows of 1: %s)" % shown)
         chk.ob("R04.4", "writer::newline-per-row", _all(v_nl), W, "one newline ends each row (%s)" % shown)
+
+
+def _delimiters_reader(chk, tu, suffix=None):
+    data, fptr = _SYM("mData"), _FPTR
     # ---- reader for numbers
     buf = _mkaff(_SYM("buff"), 0)
     dkeys = [("R04.4", "reader::whitespace-mode-consumes-one-separator", "in whitespace mode one separator is consumed after a number (the scan format has no suffix there)"),
@@ -2127,10 +2399,11 @@ class _Unrec(Exception):
 
 
 class _V:
-    __slots__ = ("op", "name", "args", "kw", "node")
+    __slots__ = ("op", "name", "args", "kw", "node", "scope")
 
-    def __init__(self, op, name=None, args=(), kw=None, node=None):
+    def __init__(self, op, name=None, args=(), kw=None, node=None, scope=None):
         self.op, self.name, self.args, self.kw, self.node = op, name, list(args), dict(kw or {}), node
+        self.scope = scope          # (function, variables) where a comprehension / a call was evaluated: what its free names mean
 
     def __repr__(self):
         return "<%s>" % _txt(self)
@@ -2173,37 +2446,56 @@ def _hkey(v):
     return _txt(v) if _pure(v) else "#%d" % id(v)
 
 
-def _atoms(v, truth=True):
-    """the elementary facts that follow from `v` having the given truth value"""
+def _unbool(v):
+    """bool(x) has the truth value of x"""
+    while v is not None and v.op == "call" and v.name == "bool" and len(v.args) == 2 and v.args[0] is None and not v.kw:
+        v = v.args[1]
+    return v
+
+
+def _atoms3(v, truth=True):
+    """the elementary facts that follow from `v` having the given truth value: (text, truth, term)"""
+    v = _unbool(v)
     if v.op == "not":
-        return _atoms(v.args[0], not truth)
+        return _atoms3(v.args[0], not truth)
     if v.op == "bool" and ((v.name == "and") == truth):
-        return [a for x in v.args for a in _atoms(x, truth)]
+        return [a for x in v.args for a in _atoms3(x, truth)]
     if v.op == "cmp" and v.name in _NEG:
-        return [("%s %s %s" % (_txt(v.args[0]), _NEG[v.name], _txt(v.args[1])), not truth)]
-    return [(_txt(v), truth)]
+        pos = _V("cmp", _NEG[v.name], v.args)
+        return [(_txt(pos), not truth, pos)]
+    return [(_txt(v), truth, v)]
+
+
+def _atoms(v, truth=True):
+    return [(t, b) for t, b, _x in _atoms3(v, truth)]
 
 
 class _St:
-    __slots__ = ("env", "heap", "events", "known")
+    __slots__ = ("env", "heap", "events", "known", "kterm")
 
-    def __init__(self, env=None, heap=None, events=None, known=None):
-        self.env, self.heap, self.events, self.known = env or {}, heap or {}, events or [], known or {}
+    def __init__(self, env=None, heap=None, events=None, known=None, kterm=None):
+        self.env, self.heap, self.events, self.known, self.kterm = env or {}, heap or {}, events or [], known or {}, kterm or {}
 
     def fork(self):
-        return _St(dict(self.env), dict(self.heap), list(self.events), dict(self.known))
+        return _St(dict(self.env), dict(self.heap), list(self.events), dict(self.known), dict(self.kterm))
 
     def assume(self, v, truth):
         """record the facts; False when they contradict what the path already knows"""
-        for t, b in _atoms(v, truth):
+        for t, b, x in _atoms3(v, truth):
             if self.known.get(t, b) != b:
                 return False
             self.known[t] = b
+            self.kterm.setdefault(t, x)          # the fact as a term, for rules that evaluate facts rather than compare their text
         return True
+
+    def facts(self):
+        """[(term, truth)] of everything the path knows"""
+        return [(self.kterm[t], b) for t, b in self.known.items() if t in self.kterm]
 
 
 def _fold(v, st):
     """truth value of v on this path: True / False / None (open)"""
+    v = _unbool(v)
     if v.op == "const":
         return bool(v.name)
     if v.op == "not":
@@ -2274,6 +2566,7 @@ class _PX:
     def outcomes(self, v, s):
         """the outcomes of a test term.  `a and b` / `a or b` / `not a` are decided operand by operand, left to right, as python does,
         so that every path knows the elementary facts it rests on (`a and b` false: a false, or a true and b false)"""
+        v = _unbool(v)
         r = _fold(v, s)
         if r is not None:
             return [(r, s)]
@@ -2441,11 +2734,17 @@ class _PX:
         if isinstance(e, ast.Constant):
             return [(_V("const", e.value), st)]
         if isinstance(e, ast.Name):
-            return [(st.env.get(e.id) or _V("name", e.id), st)]
+            v = st.env.get(e.id)
+            if v is None:
+                v = _module_const(ctx[0].module, e.id) or _V("name", e.id)
+            return [(v, st)]
         if isinstance(e, ast.Attribute):
             out = []
             for b, s in self.ev(e.value, st, ctx):
-                out.append((s.heap.get((_hkey(b), e.attr)) or _V("attr", e.attr, [b]), s))
+                v = s.heap.get((_hkey(b), e.attr))
+                if v is None:
+                    v = _record_field(b, e.attr, ctx[0].module)          # <namedtuple made on this path>.<field>: the value it was made with
+                out.append((v or _V("attr", e.attr, [b]), s))
             return out
         if isinstance(e, ast.Subscript):
             out = []
@@ -2469,7 +2768,14 @@ class _PX:
         if isinstance(e, ast.BoolOp):
             return [(_V("bool", "and" if isinstance(e.op, ast.And) else "or", vs), s) for vs, s in self.ev_many(e.values, st, ctx)]
         if isinstance(e, ast.BinOp):
-            return [(_V("binop", type(e.op).__name__, vs), s) for vs, s in self.ev_many([e.left, e.right], st, ctx)]
+            out = []
+            for vs, s in self.ev_many([e.left, e.right], st, ctx):
+                a, b = vs
+                if isinstance(e.op, ast.Add) and a.op == "const" and b.op == "const" and type(a.name) is type(b.name) and isinstance(a.name, (tuple, str)):
+                    out.append((_V("const", a.name + b.name), s))          # constant tables put together from named parts
+                else:
+                    out.append((_V("binop", type(e.op).__name__, vs), s))
+            return out
         if isinstance(e, ast.IfExp):
             out = []
             for r, s in self.branch(e.test, st, ctx):
@@ -2496,7 +2802,7 @@ class _PX:
             kids = [e.operand] if isinstance(e, ast.UnaryOp) else [e.left] + list(e.comparators)
             return [(_V("other", type(e).__name__ + ":" + norm(e), vs), s) for vs, s in self.ev_many(kids, st, ctx)]
         if isinstance(e, (ast.JoinedStr, ast.FormattedValue, ast.Lambda, ast.ListComp, ast.SetComp, ast.DictComp, ast.GeneratorExp)):
-            return [(_V("other", type(e).__name__ + ":" + norm(e), node=e), st)]      # no calls are followed inside these
+            return [(_V("other", type(e).__name__ + ":" + norm(e), node=e, scope=(ctx[0], dict(st.env))), st)]      # no calls are followed inside these
         raise _Unrec("expression %s at line %s" % (type(e).__name__, getattr(e, "lineno", "?")))
 
     def call(self, e, st, ctx):
@@ -2525,7 +2831,7 @@ class _PX:
                 if res is not None:
                     out += res
                     continue
-            v = _V("call", name, [recv] + pos, kw)
+            v = _V("call", name, [recv] + pos, kw, scope=(fi, None))
             s.events.append(("call", v))
             if name == "update" and recv is not None and not star and len(pos) <= 1 and (not pos or (pos[0].op == "seq" and pos[0].name == "dict")):
                 # d.update({...}, k=v): the same stores as d[k] = v
@@ -2578,6 +2884,104 @@ class _PX:
                 s.env = dict(caller_env)
                 out.append((ret if ret is not None else _V("const", None), s))
         return out
+
+
+_MODCONST = {}
+
+
+def _literal(mod, node, depth=0):
+    """the value of a module-level expression made of literals, tuples of them, `+` and names of other such constants; _NODEF otherwise"""
+    if depth > 4:
+        return _NODEF
+    if isinstance(node, ast.Constant):
+        return node.value
+    if isinstance(node, ast.Tuple):
+        vs = [_literal(mod, x, depth + 1) for x in node.elts]
+        return _NODEF if any(v is _NODEF for v in vs) else tuple(vs)
+    if isinstance(node, ast.BinOp) and isinstance(node.op, ast.Add):
+        a, b = _literal(mod, node.left, depth + 1), _literal(mod, node.right, depth + 1)
+        if a is not _NODEF and b is not _NODEF and type(a) is type(b) and isinstance(a, (tuple, str)):
+            return a + b
+        return _NODEF
+    if isinstance(node, ast.Name):
+        v = _module_const(mod, node.id, depth + 1)
+        return v.name if v is not None else _NODEF
+    return _NODEF
+
+
+def _bound_once(mod, name):
+    """the module binds `name` exactly once: one assignment at top level, no other binding of it anywhere outside function bodies, no `global`"""
+    n = 0
+    for x in ast.walk(mod.tree):
+        if isinstance(x, ast.Global) and name in x.names:
+            return False
+        if isinstance(x, (ast.FunctionDef, ast.AsyncFunctionDef, ast.ClassDef)) and x.name == name:
+            return False
+        if isinstance(x, (ast.Import, ast.ImportFrom)) and any((al.asname or al.name.split(".")[0]) == name for al in x.names):
+            return False
+
+    def top(stmts):
+        k = 0
+        for st in stmts:
+            if isinstance(st, (ast.FunctionDef, ast.AsyncFunctionDef, ast.ClassDef)):
+                continue
+            for x in ast.walk(st):
+                if isinstance(x, ast.Name) and x.id == name and isinstance(x.ctx, (ast.Store, ast.Del)):
+                    k += 1
+        return k
+    n = top(mod.tree.body)
+    return n == 1
+
+
+def _module_const(mod, name, depth=0):
+    """a module-level name that stands for a constant (bound once, to a literal): the constant as a term, else None"""
+    key = (id(mod), name)
+    if key not in _MODCONST:
+        v = None
+        node = mod.consts.get(name)
+        if node is not None and _bound_once(mod, name):
+            lit = _literal(mod, node, depth)
+            if lit is not _NODEF:
+                v = lit
+                _MODCONST[key] = ("c", v)
+        if key not in _MODCONST:
+            _MODCONST[key] = None
+    hit = _MODCONST[key]
+    return _V("const", hit[1]) if hit else None
+
+
+def _record_fields(mod, name):
+    """field names of a record type defined in the module: X = [collections.]namedtuple("X", [...]) or class X(NamedTuple) with annotated
+    fields; None when `name` is nothing of the kind"""
+    node = mod.consts.get(name)
+    if node is not None and _bound_once(mod, name) and isinstance(node, ast.Call) and not any(k.arg is None for k in node.keywords):
+        f = node.func
+        fn = f.attr if isinstance(f, ast.Attribute) else (f.id if isinstance(f, ast.Name) else None)
+        spec = node.args[1] if len(node.args) >= 2 else next((k.value for k in node.keywords if k.arg == "field_names"), None)
+        if fn == "namedtuple" and spec is not None and not any(k.arg in ("rename", "defaults") for k in node.keywords):
+            if isinstance(spec, (ast.List, ast.Tuple)) and all(isinstance(x, ast.Constant) and isinstance(x.value, str) for x in spec.elts):
+                return [x.value for x in spec.elts]
+            if isinstance(spec, ast.Constant) and isinstance(spec.value, str):
+                return spec.value.replace(",", " ").split()
+        return None
+    cls = mod.classes.get(name)
+    if cls is not None and any((isinstance(b, ast.Name) and b.id == "NamedTuple") or (isinstance(b, ast.Attribute) and b.attr == "NamedTuple") for b in cls.bases):
+        return [x.target.id for x in cls.body if isinstance(x, ast.AnnAssign) and isinstance(x.target, ast.Name)]
+    return None
+
+
+def _record_field(b, attr, mod):
+    """b.attr where b is a record (namedtuple) constructed on this path: the argument given for that field"""
+    if b is None or b.op != "call" or b.args[0] is not None or "**" in b.kw:
+        return None
+    m = b.scope[0].module if b.scope and b.scope[0] is not None else mod
+    fields = _record_fields(m, b.name)
+    if not fields or attr not in fields:
+        return None
+    if attr in b.kw:
+        return b.kw[attr]
+    i = fields.index(attr)
+    return b.args[1 + i] if 1 + i < len(b.args) else None
 
 
 def _as_load(t):
@@ -2811,6 +3215,13 @@ def _result_order(px, t, st, ctx, depth=0):
         return None, "returns %s" % _txt(t)
     if t.op == "call" and t.name in ("list", "tuple", "dtype", "copy", "deepcopy") and len(t.args) == 2 and not t.kw:
         return _result_order(px, t.args[1], st, ctx, depth + 1)
+    if t.op == "call" and len(t.args) == 2 and not t.kw and _descr_like(t.args[1]):
+        # the work is handed to another function of the repository (one shared rule for the reader dtype and the header): its result, judged
+        # the same way, is the result here
+        tgt = px.target(t.scope[0] if t.scope and t.scope[0] is not None else ctx[0], t.args[0], t.name, st)
+        if tgt is not None and len([p for p in tgt.params if p not in ("self", "cls")]) == 1:
+            v, notes = _stripper_verdict(px.repo, tgt)
+            return v, "%s -> %s%s" % (_txt(t)[:60], tgt.name, (": " + "; ".join(notes[:2])) if notes else "")
     elems = None
     if t.op == "seq" and t.name in ("list", "tuple"):
         elems = list(t.args)
@@ -2841,35 +3252,139 @@ def _result_order(px, t, st, ctx, depth=0):
     return True, ""
 
 
+_STRIPPER = {}
+
+
+def _stripper_verdict(repo, fi):
+    """(verdict, notes): True when no path of fi returns a type string of its argument with the order character"""
+    q = fi.qualname
+    if q in _STRIPPER:
+        return _STRIPPER[q] or (None, ["%s is recursive" % fi.name])
+    _STRIPPER[q] = None                   # in progress
+    px = _PX(repo, stop=())
+    try:
+        res = px.run(fi)
+        vs, notes = [], []
+        for status, ret, st in res:
+            if status not in ("fall", "return"):
+                continue
+            v, note = _result_order(px, ret, st, (fi, 2))
+            if v == "empty":
+                continue                     # the path of an argument without fields
+            vs.append(v)
+            if note and note not in notes:
+                notes.append(note)
+    except _Unrec:
+        del _STRIPPER[q]
+        raise
+    if not any(v is True for v in vs):
+        vs.append(None)
+    _STRIPPER[q] = (_verdict(vs), notes)
+    return _STRIPPER[q]
+
+
+def _takes_dtype(fi):
+    """the stripper reads <parameter>.descr: it is given the dtype, not its descriptor"""
+    ps = [p for p in fi.params if p not in ("self", "cls")]
+    return bool(ps) and any(isinstance(x, ast.Attribute) and x.attr == "descr" and isinstance(x.value, ast.Name) and x.value.id == ps[0] for x in ast.walk(fi.node))
+
+
+_STRIPPER_NAMES = {"_remove_byteorder": "descr", "descr_to_native": "descr", "remove_dtype_byteorder": "dtype"}
+
+
+def _resolve_call(repo, fi, v):
+    """the function of the repository a call term stands for (as _PX.target does), or None"""
+    if v is None or v.op != "call" or "**" in v.kw:
+        return None
+    if v.scope and v.scope[0] is not None:
+        fi = v.scope[0]
+    recv = v.args[0]
+    if recv is None:
+        return repo.funcs.get(repo.resolve_name(fi.module, v.name))
+    if recv.op == "param" and recv.name == "self" and fi.cls:
+        return repo.funcs.get("%s.%s.%s" % (fi.module.name, fi.cls, v.name))
+    if recv.op in ("name", "attr") and _pure(recv):
+        return repo.funcs.get(repo.resolve_name(fi.module, _txt(recv) + "." + v.name))
+    return None
+
+
+def _stripped_dtype(repo, fi, v):
+    """v is what a byte-order stripper makes of a dtype D: (the call, D), D = None when the argument is not of the kind the stripper takes;
+    None when v is not the result of a stripper.  A stripper: one of the library's three, or any function of the repository whose result
+    was judged not to carry the argument's byte order (strippers() reports on it under its own name)"""
+    if v is None or v.op != "call" or len(v.args) != 2 or v.kw:
+        return None
+    tgt = _resolve_call(repo, fi, v)
+    takes = None
+    if tgt is not None:
+        try:
+            ok = v.name in _STRIPPER_NAMES or _stripper_verdict(repo, tgt)[0] is True
+        except _Unrec:
+            ok = False
+        if ok:
+            takes = "dtype" if _takes_dtype(tgt) else "descr"
+    elif v.name in _STRIPPER_NAMES:
+        takes = _STRIPPER_NAMES[v.name]
+    if takes is None:
+        return None
+    a = v.args[1]
+    if takes == "dtype":
+        return v, a
+    return v, (a.args[0] if a.op == "attr" and a.name == "descr" else None)
+
+
 def strippers(chk, repo):
+    msg = "the result cannot carry the byte order of the argument: each type string reaches it without its first (order) character, or numpy makes it native"
+    todo = []
     for q in ("esutil.recfile.Util.remove_dtype_byteorder", "esutil.sfile.SFile._remove_byteorder"):
         fi = repo.funcs.get(q)
         short = q.split(".", 2)[-1] if "SFile" in q else q.rsplit(".", 1)[-1]
         key = short.replace("sfile.", "") + "::result-carries-no-byte-order"
-        msg = "the result cannot carry the byte order of the argument: each type string reaches it without its first (order) character, or numpy makes it native"
         if fi is None:
-            chk.ob("R04.3", key, None, "esutil", msg + " [%s not found]" % q)
+            # the function is gone.  What matters is the stripper the header / the reader dtype go through *now*: make_header and
+            # recfile_open name it, and it is judged below under its own name.  Still referred to somewhere -> the code is broken
+            home = q.rsplit(".", 2 if "SFile" in q else 1)[0]
+            used = [m.name for m in repo.modules.values() if m.name == home or "SFile" not in q for x in ast.walk(m.tree)
+                    if isinstance(x, ast.Call) and (getattr(x.func, "attr", None) or getattr(x.func, "id", None)) == q.rsplit(".", 1)[-1]
+                    and (m.name == home or q.rsplit(".", 1)[-1] in m.imports)]
+            if used:
+                chk.ob("R04.3", key, None, "esutil", msg + " [%s not found but called in %s]" % (q, sorted(set(used))))
             continue
+        todo.append((key, fi))
+    # the strippers in use: what SFile._make_header stores as _DTYPE and what Recfile.open makes the reader dtype of, on their text paths
+    for q in ("esutil.sfile.SFile._make_header", "esutil.recfile.Util.Recfile.open"):
+        user = repo.funcs.get(q)
+        if user is None:
+            continue
+        try:
+            res = _PX(repo, stop=_PY_STOP).run(user)
+        except _Unrec:
+            continue
+        for status, ret, st in res:
+            if status not in ("fall", "return") or ret is None:
+                continue
+            if "make_header" in q:
+                text = st.known.get("self._delim is None") is False
+                vals = [st.heap.get((_hkey(ret), "['_DTYPE']"))]
+            else:
+                asc = st.heap.get(("self", "is_ascii"))
+                text = asc is not None and _fold(asc, st) is True
+                vals = [st.heap.get(("self", "dtype"))]
+            for v in vals if text else []:
+                if v is None:
+                    continue
+                v = v.args[1] if _is_call(v, "dtype") and len(v.args) == 2 else v
+                tgt = _resolve_call(repo, user, v)
+                if tgt is not None and len(v.args) == 2 and not v.kw and all(tgt is not f for _k, f in todo):
+                    todo.append((tgt.name + "::result-carries-no-byte-order", tgt))
+    for key, fi in todo:
         chk.analysed_unit(fi.qualname)
         try:
-            px = _PX(repo, stop=())
-            res = px.run(fi)
-            vs, notes = [], []
-            for status, ret, st in res:
-                if status not in ("fall", "return"):
-                    continue
-                v, note = _result_order(px, ret, st, (fi, 2))
-                if v == "empty":
-                    continue                     # the path of an argument without fields
-                vs.append(v)
-                if note and note not in notes:
-                    notes.append(note)
+            v, notes = _stripper_verdict(repo, fi)
         except _Unrec as e:
             chk.ob("R04.3", key, None, fi.where(), "%s [path evaluation of %s gave up: %s]" % (msg, fi.name, e))
             continue
-        if not any(v is True for v in vs):
-            vs.append(None)
-        chk.ob("R04.3", key, _verdict(vs), fi.where(), msg + ((" (%s: %s)" % (fi.name, "; ".join(notes[:3]))) if notes else ""))
+        chk.ob("R04.3", key, v, fi.where(), msg + ((" (%s: %s)" % (fi.name, "; ".join(notes[:3]))) if notes else ""))
 
 
 _NUMPY = ("numpy", "np")
@@ -2904,8 +3419,163 @@ def _chain(v):
 
 
 def _known_true(st, v, suffixes):
-    """a fact `<array>.<suffix>` is known to be true on the path, for the array or one it is a view / copy of"""
-    return any(st.known.get("%s.%s" % (_txt(t), sfx)) is True for t in _chain(v) for sfx in suffixes)
+    """a fact `<array>.<suffix>` is known to be true on the path, for the array or one it is a view / copy of -- asked directly, or implied
+    by a predicate of the repository that is known to hold (see _implied)"""
+    if any(st.known.get("%s.%s" % (_txt(t), sfx)) is True for t in _chain(v) for sfx in suffixes):
+        return True
+    imp = _IMPLIED.get(id(st))
+    if not imp:
+        return False
+    kind = "native" if "dtype.isnative" in suffixes else "contig"
+    keys = {_nkey(_txt(t) + (".dtype" if kind == "native" else "")) for t in _chain(v)}
+    return any(k == kind and x in keys for k, x in imp[1])
+
+
+# ---- what a true test says about an array ------------------------------------------------------------------------------------------
+# A path may know "the array is in native order" / "its rows are contiguous" through a predicate of the repository instead of numpy's
+# own attribute: `if self.is_ascii and not _is_native_and_contiguous(a): a = a.copy(); to_native_inplace(a)`.  What the truth of a
+# term implies is derived from the code of the predicate, for all arguments:
+#   X.dtype.isnative / X.dtype.base.isnative           -> native(X.dtype)      (numpy's statement; .base of a dtype holds the same numbers)
+#   X.flags.c_contiguous ...                           -> contig(X)
+#   bool(t) -> t;  a and b -> both;  a or b -> what both imply
+#   all(P(D.fields[n][0]) for n in D.names)            -> native(D) when P(d) implies native(d): every field is covered, no filter
+#   f(args) with f a function of the repository        -> what every path of f that can return a true value implies, in terms of the
+#                                                         arguments; a recursive call assumes the summary being derived (induction over
+#                                                         the nesting of a dtype: a call that returns has a finite recursion depth)
+# Keys are texts of terms with every `.base` dropped.
+_IMPLIED = {}
+_SUMMARY = {}
+_SUMSTACK = []
+_FLAG_NAMES = ("c_contiguous", "contiguous", "carray")
+_FLAG_KEYS = ("C_CONTIGUOUS", "C", "CONTIGUOUS", "CARRAY")
+
+
+def _nkey(text):
+    return text.replace(".base", "")
+
+
+def _implied(px, t, st, depth=0):
+    """{(kind, key)} that hold whenever the term t is true"""
+    t = _unbool(t)
+    if t is None or depth > 8:
+        return set()
+    if t.op == "bool":
+        parts = [_implied(px, x, st, depth + 1) for x in t.args]
+        return set().union(*parts) if t.name == "and" else set.intersection(*parts)
+    if t.op == "attr" and t.name == "isnative":
+        return {("native", _nkey(_txt(t.args[0])))}
+    if t.op == "attr" and t.name in _FLAG_NAMES and t.args[0].op == "attr" and t.args[0].name == "flags":
+        return {("contig", _nkey(_txt(t.args[0].args[0])))}
+    if t.op == "sub" and t.args[0].op == "attr" and t.args[0].name == "flags" and t.args[1].op == "const" and t.args[1].name in _FLAG_KEYS:
+        return {("contig", _nkey(_txt(t.args[0].args[0])))}
+    if t.op == "call" and t.name == "all" and t.args[0] is None and len(t.args) == 2 and not t.kw:
+        return _implied_all(px, t.args[1], st, depth)
+    if t.op == "call" and "**" not in t.kw and t.scope and t.scope[0] is not None:
+        tgt = px.target(t.scope[0], t.args[0], t.name, st)
+        if tgt is None or any(p.startswith("*") for p in tgt.params):
+            return set()
+        params = list(tgt.params)
+        if tgt.cls and params and t.args[0] is not None:
+            params.pop(0)
+        actual = dict(zip(params, t.args[1:]))
+        actual.update({k: v for k, v in t.kw.items() if k in params})
+        out = set()
+        for kind, key in _summary(px, tgt):
+            for p, a in actual.items():
+                if key == p or key.startswith(p + ".") or key.startswith(p + "["):
+                    out.add((kind, _nkey(_txt(a) + key[len(p):])))
+        return out
+    return set()
+
+
+def _implied_all(px, gen, st, depth):
+    """all(<elt> for <n> in <iter>): native(D) when the iteration covers every field of D and <elt> implies native(<dtype of that field>)"""
+    node = gen.node if gen is not None and gen.op == "other" else None
+    if not isinstance(node, (ast.GeneratorExp, ast.ListComp)) or len(node.generators) != 1 or gen.scope is None:
+        return set()
+    g = node.generators[0]
+    if g.ifs or g.is_async:
+        return set()
+    fi, env = gen.scope
+    s2 = st.fork()
+    s2.env = dict(env)
+    ctx = (fi, 0)                      # calls inside are kept as terms: they are judged by their summaries
+    out = set()
+    try:
+        for it, s3 in px.ev(g.iter, s2, ctx):
+            el = _V("elem", "elem", [it])
+            px.assign(g.target, el, s3, ctx)
+            # which dtype's fields are run through, and the term that stands for the dtype of the field at hand
+            src = it.args[0] if _is_call(it, "keys", "values", "items") and len(it.args) == 1 and it.args[0] is not None else it
+            if src.op != "attr" or src.name not in ("names", "fields") or (src.name == "names" and src is not it):
+                continue
+            d = src.args[0]
+            how = it.name if it is not src else "keys"
+            fields = _V("attr", "fields", [d])
+            if how == "keys":
+                fdt = _V("sub", None, [_V("sub", None, [fields, el]), _V("const", 0)])
+            elif how == "values":
+                fdt = _V("sub", None, [el, _V("const", 0)])
+            else:
+                fdt = _V("sub", None, [_V("sub", None, [el, _V("const", 1)]), _V("const", 0)])
+            want = {("native", _nkey(_txt(fdt)))}
+            if how == "keys":
+                want.add(("native", _nkey(_txt(_V("sub", None, [d, el])))))          # D[n]: the dtype of the field named n
+            vals = px.ev(node.elt, s3, ctx)
+            if vals and all(want & _implied(px, v, s4, depth + 1) for v, s4 in vals):
+                out.add(("native", _nkey(_txt(d))))
+    except _Unrec:
+        return set()
+    return out
+
+
+def _summary(px, fn):
+    """{(kind, key in terms of the parameters)} implied by a true result of the repository function fn"""
+    q = fn.qualname
+    hit = _SUMMARY.get(q)
+    if hit is not None:
+        if hit[0] == "open" and (not _SUMSTACK or _SUMSTACK[-1] != q):
+            return set()                # asked from inside another function whose summary would then rest on a hypothesis: nothing is promised
+        return hit[1]                   # finished, or the hypothesis of the round in progress (a directly recursive call)
+    cand = {(k, p) for p in fn.params if not p.startswith("*") for k in ("native", "contig")} | \
+           {("native", p + ".dtype") for p in fn.params if not p.startswith("*")}
+    for _round in range(4):
+        _SUMMARY[q] = ("open", cand)
+        _SUMSTACK.append(q)
+        try:
+            sub = _PX(px.repo, stop=_PY_STOP)
+            res = sub.run(fn)
+            new = None
+            for status, ret, st in res:
+                if status not in ("fall", "return"):
+                    continue
+                if ret is None or (ret.op == "const" and not ret.name):
+                    continue                # this path returns a false value: it promises nothing
+                imp = _implied(sub, ret, st) | set().union(*[_implied(sub, x, st) for x, b in st.facts() if b] or [set()])
+                new = imp if new is None else (new & imp)
+        except _Unrec:
+            cand = set()
+            break
+        finally:
+            _SUMSTACK.pop()
+        new = (new or set()) & cand
+        if new == cand:
+            break
+        cand = new
+    else:
+        cand = set()
+    _SUMMARY[q] = ("done", cand)
+    return cand
+
+
+def _note_implied(px, st):
+    """what the facts of a path imply (kept per state, consulted by _known_true)"""
+    imp = set()
+    for x, b in st.facts():
+        if b:
+            imp |= _implied(px, x, st)
+    _IMPLIED[id(st)] = (st, imp)
+    return imp
 
 
 _CONTIG_FACTS = ("flags.c_contiguous", "flags.contiguous", "flags.carray", "flags['C_CONTIGUOUS']", "flags['C']", "flags['CONTIGUOUS']", "flags['CARRAY']")
@@ -2987,7 +3657,9 @@ def recfile_write(chk, repo, tu=None):
         return
     linear = _writer_walks_buffer(tu)
     v1, v2, v3, notes, notes3 = [], [], [], [], []
+    px = _PX(repo, stop=_PY_STOP)
     for ret, st in paths:
+        _note_implied(px, st)
         calls = [(i, e[1]) for i, e in enumerate(st.events) if e[0] == "call"]
         convs = [(i, c) for i, c in calls if c.name in _INPLACE or c.name == "to_native"]
         raw = [c for i, c in calls if c.name in ("byteswap", "newbyteorder")]
@@ -3072,10 +3744,89 @@ def _truth(v, st):
     return None if v is None else _fold(v, st)
 
 
+class _NoEval(Exception):
+    pass
+
+
+def _cev(t, subject, value):
+    """the python value of a term when the term `subject` has the given value; _NoEval when the term reads anything else"""
+    if t is None:
+        raise _NoEval()
+    if t is subject or (_pure(t) and _pure(subject) and _txt(t) == _txt(subject)):
+        return value
+    t = _unbool(t)
+    o = t.op
+    if o == "const":
+        return t.name
+    if o == "seq" and t.name in ("tuple", "list", "set"):
+        return tuple(_cev(x, subject, value) for x in t.args)
+    try:
+        if o == "sub":
+            b = _cev(t.args[0], subject, value)
+            i = t.args[1]
+            if i.op == "other" and i.name == "slice" and len(i.args) == 3:
+                return b[slice(*[_cev(x, subject, value) for x in i.args])]
+            return b[_cev(i, subject, value)]
+        if o == "cmp":
+            a, b = _cev(t.args[0], subject, value), _cev(t.args[1], subject, value)
+            return {"==": lambda: a == b, "!=": lambda: a != b, "is": lambda: a is b or (a == b and type(a) is type(b)),
+                    "is not": lambda: not (a is b or (a == b and type(a) is type(b))), "in": lambda: a in b, "not in": lambda: a not in b,
+                    "<": lambda: a < b, "<=": lambda: a <= b, ">": lambda: a > b, ">=": lambda: a >= b}[t.name]()
+        if o == "not":
+            return not _cev(t.args[0], subject, value)
+        if o == "bool":
+            vs = [_cev(x, subject, value) for x in t.args]
+            r = vs[0]
+            for x in vs[1:]:
+                r = (r and x) if t.name == "and" else (r or x)
+            return r
+        if o == "binop" and t.name == "Add":
+            return _cev(t.args[0], subject, value) + _cev(t.args[1], subject, value)
+        if o == "call" and t.args[0] is not None and not t.kw and t.name in ("startswith", "endswith", "lower", "upper", "strip") and len(t.args) <= 2:
+            recv = _cev(t.args[0], subject, value)
+            if isinstance(recv, str):
+                return getattr(recv, t.name)(*[_cev(x, subject, value) for x in t.args[1:]])
+    except _NoEval:
+        raise
+    except Exception:
+        raise _NoEval()
+    raise _NoEval()
+
+
+_MODES = ("r", "r+", "w", "w+", "a")          # the documented modes and one that is none of them
+
+
+def _opened_for_reading(mode, st):
+    """Is the file opened for reading on this path?  Decided over the finite domain of the mode string: the values the facts of the path
+    allow -- each fact that speaks about the mode and constants only is evaluated for every value (mode[0] == 'r', mode in ('r', 'r+'),
+    mode.startswith('r') ... all come out the same) -- either all begin with r (True), or none does (False); None: open, "dead": no
+    value is left (a path that cannot be taken)"""
+    if mode is None:
+        return None
+    if mode.op == "const" and isinstance(mode.name, str):
+        return mode.name[:1] == "r"
+    left = []
+    for m in _MODES:
+        ok = True
+        for t, truth in st.facts():
+            try:
+                if bool(_cev(t, mode, m)) != truth:
+                    ok = False
+                    break
+            except _NoEval:
+                continue                # a fact about something else: does not narrow the mode
+        if ok:
+            left.append(m)
+    if not left:
+        return "dead"
+    rs = {m[:1] == "r" for m in left}
+    return rs.pop() if len(rs) == 1 else None
+
+
 def recfile_open(chk, repo):
     op = repo.func("esutil.recfile.Util.Recfile.open")
     m1 = "the reader's dtype loses its byte order exactly for text files"
-    m2 = "stripping uses remove_dtype_byteorder (checked by C16 R16.5)"
+    m2 = "stripping uses remove_dtype_byteorder (checked by C16 R16.5) or a function whose result is judged the same way"
     m3 = "a file is text exactly when a delimiter is given"
     k1, k2, k3 = "Recfile.open::reader-dtype-stripped-for-text-only", "Recfile.open::stripper", "Recfile.open::text-iff-delimiter"
     paths = _paths(chk, repo, op, [(k1, m1), (k2, m2), (k3, m3)])
@@ -3105,9 +3856,9 @@ def recfile_open(chk, repo):
                 if want != text:
                     notes.append("is_ascii=%s although delim=%s under %s" % (_txt(asc), _txt(delim), sorted(st.known.items())))
         # the reader
-        reading = None if mode is None else _fold(_V("cmp", "==", [_V("sub", None, [mode, _V("const", 0)]), _V("const", "r")]), st)
-        if mode is not None and mode.op == "const" and isinstance(mode.name, str):
-            reading = mode.name[:1] == "r"
+        reading = _opened_for_reading(mode, st)
+        if reading == "dead":
+            continue
         if not reading:
             if reading is None:
                 v1.append(None)
@@ -3115,14 +3866,23 @@ def recfile_open(chk, repo):
             continue
         d = st.heap.get(("self", "dtype"))
         inner = d.args[1] if _is_call(d, "dtype") and len(d.args) == 2 else d
-        strip = inner if _is_call(inner, "remove_dtype_byteorder", "descr_to_native") else None
+        sd = _stripped_dtype(repo, op, inner)
+        strip = sd[0] if sd is not None else None
         if text is None or d is None:
             v1.append(None)
             notes.append("reader dtype %s with text-ness undecided" % _txt(d))
         elif text:
-            ok = strip is not None and len(strip.args) == 2 and _udtype(strip.args[1]) and _is_call(d, "dtype")
+            ok = strip is not None and _udtype(sd[1]) and _is_call(d, "dtype")
             v1.append(True if ok else (False if _udtype(d) else None))
-            v2.append((strip.name == "remove_dtype_byteorder") if strip is not None else (False if _udtype(d) else None))
+            # the library's stripper, or another function of the repository whose result was judged not to carry the byte order
+            if strip is None:
+                v2.append(False if _udtype(d) else None)
+            else:
+                tgt = _resolve_call(repo, op, strip)
+                try:
+                    v2.append(True if strip.name == "remove_dtype_byteorder" else (_stripper_verdict(repo, tgt)[0] if tgt is not None else None))
+                except _Unrec:
+                    v2.append(None)
             if not ok:
                 notes.append("text reader dtype is %s" % _txt(d))
         else:
@@ -3154,9 +3914,10 @@ def make_header(chk, repo):
         opaque = [_txt(e[1]) for e in st.events if e[0] == "call" and e[1].args[0] is ret and e[1].name not in ("pop", "get", "keys", "items", "values", "copy")
                   and not (e[1].name == "update" and (hk, "['_DTYPE']") in st.heap)] + \
             ([] if ret.op in ("seq", "call") else [_txt(ret)])
-        strip = dt if _is_call(dt, "_remove_byteorder", "remove_dtype_byteorder", "descr_to_native") else None
-        src = strip.args[1] if strip is not None and len(strip.args) == 2 else dt
-        plain = src is not None and _txt(src) == "data.dtype.descr"
+        # the stripped descriptor of data.dtype: a stripper that takes the descriptor gets data.dtype.descr, one that takes the dtype gets data.dtype
+        sd = _stripped_dtype(repo, mh, dt)
+        strip = sd[0] if sd is not None else None
+        plain = (sd[1] is not None and _txt(sd[1]) == "data.dtype") if sd is not None else (dt is not None and _txt(dt) == "data.dtype.descr")
         if text is None:
             v1.append(None)
             v2.append(None)
@@ -3286,6 +4047,10 @@ def sfile_open(chk, repo):
         md = st.heap.get(("self", "_mode"))
         if reading is None and md is not None and md.op == "const" and isinstance(md.name, str):
             reading = md.name[:1] == "r"
+        if reading is None and md is not None:
+            reading = _opened_for_reading(md, st)          # another spelling of the same question (mode in ('r', 'r+'), startswith ...)
+            if reading == "dead":
+                continue
         d = st.heap.get(("self", "_delim"))
         rf = [e[1] for e in st.events if e[0] == "call" and e[1].name in ("Recfile", "Open")]
         passed = [_txt(c.kw["delim"]) if "delim" in c.kw else None for c in rf]
